@@ -152,6 +152,41 @@ def run(ctx):
                    pb.loc(), "")
     chk.floor("instruction shapes checked against the reference encoding", n, 2000)
 
+    # ---- the symbol table changes only where a name is defined ---------------------------------
+    # (every instruction shape and every directive except .EQU, at a position equal to / different from
+    #  the value of an existing entry: the table must come out exactly as it went in, and no write to
+    #  it may occur at all)
+    ki = names.index("known_labels")
+    ntab = 0
+    bad_tab = []
+    for vname, combo, value in am.instructions():
+        if vname == "AsmEquals":
+            continue
+        for n0, entry in ((10, 10), (10, 200)):
+            st_ = absint.State()
+            I.heap_counter = 0
+            trl = list(am.new_translator(next_addr=n0).f)
+            table = Agg((Str("<hashmap>"), Opaque("KEYS"), entry))
+            trl[ki] = table
+            ta_ = I.new_alloc(st_, "tr", Agg(trl))
+            ia_ = I.new_alloc(st_, "inst", value)
+            ca_ = I.new_alloc(st_, "comment", En({0: ()}))
+            I.events.clear()
+            I.run_body(pb, [Ref(ta_, (), True), Ref(ia_), Ref(ca_)], st_, 0)
+            after = st_.store[ta_]
+            wrote = [e for e in I.events if e.kind in ("write", "havoc") and e.info[0] == ta_ and len(e.info) > 1
+                     and e.info[1][:1] == (ki,)]
+            ntab += 1
+            if not (isinstance(after, Agg) and after.f[ki] == table) or wrote:
+                bad_tab.append("%s %s at %d with an entry of value %d: table now %s" %
+                               (vname, ", ".join(getattr(c, "desc", str(c)) for c in combo) if isinstance(combo, (list, tuple)) else "",
+                                n0, entry, D.short(after.f[ki]) if isinstance(after, Agg) else after))
+    chk.ob("symbol-table/only-definitions-write", not bad_tab,
+           "no instruction or directive other than a definition (.EQU, label) changes the value of a defined name",
+           pb.loc(), "; ".join(bad_tab[:3]) or "%d (shape, position) cases" % ntab,
+           "A4 on Translator::push_instruction with a non-empty symbol table; any write or unmodelled access to the table counts")
+    chk.floor("symbol-table cases", ntab, 4000)
+
     # ---- directives ---------------------------------------------------------------------------
     ivi = am.vi["Instruction"]
 
